@@ -118,6 +118,10 @@ def judge(text, warun, pool):
         fw = pool.submit(run_wa, text, warun)
         gs, gout = fg.result()
         ws, wout, werr = fw.result()
+        if ws == 'timeout':     # a loaded machine, not necessarily a hang: one retry with a longer limit
+            ws, wout, werr = pool.submit(run_wa, text, warun, 600).result()
+        if gs == 'timeout':
+            gs, gout = pool.submit(run_go, text, 600).result()
     r = {'go_status': gs, 'wa_status': ws, 'go_out': gout, 'wa_out': wout, 'wa_err': werr}
     if gs != 'ok':
         r['cls'] = 'go_bad'
@@ -256,7 +260,16 @@ def main():
         todo.append(lst[0])
     for sig, lst in sigs.items():
         todo.extend(lst[1:])
-    todo = todo[:a.max_shrink]
+    # a go_bad program is a generator bug: the Go message says it all, shrink only the first of each signature
+    seen_go = set()
+    t2 = []
+    for it, r in todo:
+        if r['cls'] == 'go_bad':
+            if r['sig'] in seen_go:
+                continue
+            seen_go.add(r['sig'])
+        t2.append((it, r))
+    todo = t2[:a.max_shrink]
 
     def do_shrink(it, r):
         i, size, p, text = it
@@ -270,7 +283,7 @@ def main():
         info = {'index': i, 'size': size, 'cls': r['cls'], 'sig': r['sig'], 'file': base + '.wa.go'}
         if r['cls'] == 'mismatch':
             info['first_diff'] = first_diff(r['wa_out'], r['go_out'])
-        if a.no_shrink:
+        if a.no_shrink or r['cls'] == 'wa_timeout':     # (every shrink step of a hang would cost a full timeout)
             return info, None, r
         want = r['sig']
 
